@@ -22,9 +22,9 @@ def parseDrops : Bytes → List Nat → Int → Option (List Nat × Int)
     else if isAnnot d then some (slides, stack)
     else none
 
-/-- `ptn.ParseMove` -/
-def parseMove (mv : Bytes) : R Move :=
-  let bad : R Move := .error (.illegal "ParseMove")
+/-- `ptn.ParseMove`, every `return tak.Move{}, errors.New(…)` being `none` -/
+def parseMove? (mv : Bytes) : Option Move :=
+  let bad : Option Move := none
   if mv.length < 2 then bad else
   match mv with
   | [] => bad
@@ -45,9 +45,9 @@ def parseMove (mv : Bytes) : R Move :=
       let x : Int := ((fx.toNat - 97 : Nat) : Int)
       let y : Int := ((fy.toNat - 49 : Nat) : Int)
       match tail with
-      | [] => if stack != 0 then bad else .ok ⟨x, y, ty, 0#32⟩
+      | [] => if stack != 0 then bad else some ⟨x, y, ty, 0#32⟩
       | d :: ds =>
-        if isAnnot d then (if stack != 0 then bad else .ok ⟨x, y, ty, 0#32⟩) else
+        if isAnnot d then (if stack != 0 then bad else some ⟨x, y, ty, 0#32⟩) else
         let ty? : Option Nat :=
           if d == 60 then some Facts.mtSlideLeft
           else if d == 62 then some Facts.mtSlideRight
@@ -63,8 +63,14 @@ def parseMove (mv : Bytes) : R Move :=
           | some (slides, stack) =>
             if stack < 0 then bad else
             let slides := if stack > 0 then slides ++ [stack.toNat] else slides
-            .ok ⟨x, y, ty, mkSlides slides⟩
+            some ⟨x, y, ty, mkSlides slides⟩
     | _ => bad                              -- len(move) < i+2
+
+/-- `ptn.ParseMove` -/
+def parseMove (mv : Bytes) : R Move :=
+  match parseMove? mv with
+  | some m => .ok m
+  | none => .error (.illegal "ParseMove")
 
 /-- `byte(c + v)` in `int8` arithmetic -/
 def byteAdd (c : Nat) (v : Int) : UInt8 := UInt8.ofNat (((c : Int) + v) % 256).toNat
